@@ -1,0 +1,33 @@
+// Copyright Suneido Software Corp. All rights reserved.
+// Governed by the MIT license found in the LICENSE file.
+
+//go:build verif
+
+package ast
+
+// Hook for the external property checks in /verif (build tag verif).
+// Read-only view of the flag that CanEvalRaw leaves on a node; adds no behaviour.
+
+// VerifEvalRaw reports whether the node was marked by CanEvalRaw to be
+// evaluated on packed values (Eval then goes through EvalRaw).
+// has is false for node types that carry no such flag
+// (Constant and Ident are raw exactly when their parent is).
+func VerifEvalRaw(e Expr) (raw bool, has bool) {
+	switch e := e.(type) {
+	case *Unary:
+		return e.evalRaw, true
+	case *Binary:
+		return e.evalRaw, true
+	case *Trinary:
+		return e.evalRaw, true
+	case *Nary:
+		return e.evalRaw, true
+	case *In:
+		return e.evalRaw, true
+	case *InRange:
+		return e.evalRaw, true
+	case *Call:
+		return e.RawEval, true
+	}
+	return false, false
+}
